@@ -5,10 +5,12 @@ From J1939 Require Import Base.
 
 Inductive fl :=
 | FSkip                      (* anything that neither touches the pools nor leaves the function *)
+| FEnd                       (* the path ends here and nothing is asked of it (used by the ordering skeletons) *)
 | FRet                       (* return *)
 | FRaise                     (* raise *)
 | FStore                     (* self._snd_buffer[...] = {...} : the number is owned by a session from here on *)
 | FPut                       (* self.__put_*_session(...) *)
+| FMark                      (* sets the flag unconditionally (ordering skeletons: a frame has been handed to the bus) *)
 | FGet (fail : fl)           (* x = self.__get_*_session(); if x == None: <fail> *)
 | FSeq (a b : fl)
 | FAlt (a b : fl).           (* if / else; loops are only admitted by the generator when they contain none of the above *)
@@ -25,8 +27,10 @@ Definition merge (x y : option bool) : option bool :=
 Fixpoint leakfree (h : bool) (t : fl) : option (option bool) :=
   match t with
   | FSkip => Some (Some h)
+  | FEnd => Some None
   | FRet | FRaise => if h then None else Some None
   | FStore | FPut => Some (Some false)
+  | FMark => Some (Some true)
   | FGet fail =>
       if h then None
       else match leakfree false fail with
